@@ -38,8 +38,8 @@ pub enum SOp {
     Pending { t: u32, c: u32 },
     Invalid { t: u32, c: u32 },
     RemovePending { t: u32, c: u32 },
-    /// The tower is flagged with a proof carrying an acknowledgement signed by another key (only for a commitment the
-    /// tower has not acknowledged before: the handlers never send an acknowledged appointment again).
+    /// The tower is flagged with a proof carrying an acknowledgement signed by another key (possibly for a commitment
+    /// it had acknowledged properly before: a retrier that outlived an abandon + re-registration can send it again).
     Misbehave { t: u32, c: u32 },
     Abandon { t: u32 },
     /// The live instance is dropped and replaced by a freshly loaded one.
@@ -311,8 +311,8 @@ impl Store {
                 r.sign(&self.other_key);
                 let recovered = TowerId(PublicKey::from_secret_key(&Secp256k1::new(), &self.other_key));
                 let known = self.model.contains_key(t);
-                let had_receipt = self.model.get(t).map(|m| m.receipts.contains_key(&loc.to_vec())).unwrap_or(false);
-                if known && !had_receipt {
+                // (fix b79ba72: the offending receipt replaces one the tower may have given for this appointment before)
+                if known {
                     // (the proof carries the offending acknowledgement; storing the proof stores it as the receipt)
                     let already = self.model[t].proof.is_some();
                     let rec = (r.start_block(), r.user_signature().to_string(), r.signature().unwrap());
